@@ -1,3 +1,4 @@
+import re
 """C15 — stand-alone fee functions: exact arithmetic, rounding direction, constants, overflow-to-error (E3 + mustflow + callee reachability)."""
 import common
 import facts
@@ -119,7 +120,8 @@ def check(rep, F, tier, replay=None):
         bad = [c.to for c in F.calls(fid) if c.to and ("unwrap" in c.to or "Option::<T>::expect" in c.to)]
         import mustpass as mp
         errs = mp.error_stores(F, fid)
-        if bad or len(errs) < 2:
+        okor = [c.to for c in F.calls(fid) if c.to and re.search(r"Option::<T>::(ok_or|ok_or_else)$", c.to)]  # as_u64().ok_or_else(|| error): None becomes Err
+        if bad or len(errs) + len(okor) < 2:
             rep.violation("OVF", key, "%s no longer turns a non-representable result into an error (unwrap-like calls: %s, Err exits: %d)" % (key, bad, len(errs)), {})
     # WIDE-interm: only the final conversion narrows
     import re as _re
